@@ -75,7 +75,7 @@ def havoc_loop(ex, st, body, extra_names=(), bind=None):
     discarded), add whatever differs afterwards, repeat until stable.  `bind(state)` prepares one iteration
     (loop variable) and returns the states in which the body starts."""
     names = assigned_names(body) | mutated_names(body) | set(extra_names)
-    W = {FIELD_ALIAS.get(f, f) for f in stored_fields(body) if FIELD_ALIAS.get(f, f) in FIELDS}
+    W = set()        # found by the fixpoint below (what the body really changes), not guessed from the syntax
     trace = False
     G = set()         # ghost variables (z3-valued) that the body changes
     for _round in range(6):
